@@ -36,8 +36,6 @@ def make_self(it, dirs_exist=True):
     alg, ns = z3.String("self.algorithm"), z3.String("self.sysmeta_ns")
     ctx.assume(z3.And(depth >= 1, width >= 1))
     ctx.assume(z3.Or(*[alg == z3.StringVal(a) for a in T.DEFAULT5]))
-    for a in T.DEFAULT5:   # digest lengths of the store algorithms
-        ctx.assume(T.dlen(z3.StringVal(a)) == T.DLEN[a])
     use_mp = z3.Bool("self.use_multiprocessing")
     f = s.f
     f["fhs_logger"] = VObj("logger")
@@ -70,10 +68,6 @@ def make_self(it, dirs_exist=True):
     if dirs_exist:
         for a in STORE_DIRS:
             ctx.assume(z3.Select(ctx.st.dirs, ANCHOR_DIR[a]))
-    for c in LOCK_CLASSES:
-        x = z3.Const(f"x!{c}", T.S)
-        for arr in (ctx.st.own[c], ctx.st.env[c]):
-            ctx.assume(z3.ForAll([x], z3.Select(arr, x) >= 0, patterns=[z3.Select(arr, x)]))
     return s
 
 
